@@ -461,6 +461,10 @@ func pop64Run(c *Ctx) {
 	name := func(i int) string { return fmt.Sprintf("q%d", names[i]) }
 	add(genBM64(c))
 	c.Step("q0 = fresh %s %v", live[0].Form, descSet(live[0].M))
+	if r.Chance(0.4) {
+		c.Step("q0.SetCopyOnWrite(true)")
+		live[0].B.SetCopyOnWrite(true)
+	}
 	h := uint64(0)
 	pendingProbe := -1
 	pendingOther := -1
@@ -493,6 +497,10 @@ func pop64Run(c *Ctx) {
 				case "Fresh":
 					bm := genBM64(c)
 					c.Step("q%d = fresh %s %v", next, bm.Form, descSet(bm.M))
+					if r.Chance(0.35) {
+						c.Step("q%d.SetCopyOnWrite(true)", next)
+						bm.B.SetCopyOnWrite(true)
+					}
 					add(bm)
 				case "Clone":
 					a := r.Intn(len(live))
